@@ -347,7 +347,9 @@ class Reach(Checker):
             if node is not None:
                 w.note_state(node)
         f = op.get('fault')
-        if f and ev['r'] == 'exc':
+        if f == 'obs.interpose':
+            w.count('fault.obs.interpose')
+        elif f and ev['r'] == 'exc':
             w.count('fault.' + f)
         elif f:
             w.count('fault.' + f + '.not_fired')
